@@ -1,4 +1,5 @@
 import VelaVerif.Model.PassPacking
+import VelaVerif.Spec.PassPacking
 import VelaVerif.Handlers.Util
 /-!
 Pass packing (C01 / C16 / C11): the model of `pack_into_passes` against the real function, and the Spec clauses on real pass lists.
@@ -9,9 +10,12 @@ Pass packing (C01 / C16 / C11): the model of `pack_into_passes` against the real
   answer `ok <pass>;…` (final `sg.passes`), pass = `ops,prim,placement,ew,blockType,inputs,outputs,ifm,ifm2,ofm,weights,scale,lut,ifmShapes,ofmShape`
   (`prim`: operator id, `c` = the created 1x1 average pool, `n` = none) or `err:<what the code raises>`.
 `packdfs …`  the same for the depth-first order (before the CPU passes are regrouped), with the accepting `test_sequence` rows.
+`packspec <graph> passes=<pass>;…`  the Spec clauses on a pass list in the answer format of `packmodel` (the REAL `sg.passes`):
+  answer `wf=<0|1> a=<0|1> b=<0|1> c=<0|1> d=<0|1> badshape=<pass indices> badact=<pass indices>`
+  (a partition, b topological order, c pass shape / fused edges, d one activation function per pass)
 -/
 namespace VelaVerif.Handlers.PassPacking
-open VelaVerif VelaVerif.Handlers VelaVerif.PassPacking
+open VelaVerif VelaVerif.Handlers VelaVerif.PassPacking VelaVerif.PassPackingSpec
 
 def kv (toks : List String) (key : String) : Option String :=
   toks.findSome? fun t => if t.startsWith (key ++ "=") then some (t.drop (key.length + 1)).toString else none
@@ -62,19 +66,36 @@ def showPass (p : Pass) : String :=
 
 def showErr (e : String) : String := "err:" ++ e.replace " " "_"
 
+def parseSPass (s : String) : Option SPass :=
+  match s.splitOn "," with
+  | ops :: prim :: pl :: _ew :: _bt :: ins :: outs :: _ => do
+    some { ops := ← parseNats (splitNE ops "/"), created := prim == "c", placement := ← parseNat? pl,
+           inputs := ← parseNats (splitNE ins "/"), outputs := ← parseNats (splitNE outs "/") }
+  | _ => none
+
+def idxWhere (l : List SPass) (f : SPass → Bool) : List Nat :=
+  (List.range l.length).filter fun i => match l[i]? with | some p => f p | none => false
+
 def handle : List String → Option String
+  | "packspec" :: toks =>
+    match parseGraph toks, (splitNE ((kv toks "passes").getD "") ";").mapM parseSPass with
+    | some G, some ps =>
+      some (s!"wf={boolStr (wfB G)} a={boolStr (partitionB G ps)} b={boolStr (topoB G ps)} c={boolStr (shapeB G ps)} " ++
+            s!"d={boolStr (ps.all (oneActivationB G))} badshape={showList (idxWhere ps fun p => !passShapeB G p)} " ++
+            s!"badact={showList (idxWhere ps fun p => !oneActivationB G p)}")
+    | _, _ => some "err:parse"
   | "packmodel" :: toks =>
     match parseGraph toks with
     | none => some "err:parse"
     | some G =>
-      match packIntoPasses G with
+      match packIntoPasses Rules.current G with
       | .error e => some (showErr e)
       | .ok ps => some ("ok " ++ ";".intercalate (ps.map showPass))
   | "packdfs" :: toks =>
     match parseGraph toks with
     | none => some "err:parse"
     | some G =>
-      match packDfs G with
+      match packDfs Rules.current G with
       | .error e => some (showErr e)
       | .ok ps => some ("ok " ++ ";".intercalate (ps.map fun p => showPass p ++ ",rows=" ++ showList (p.acc.map (·.row))))
   | _ => none
